@@ -12,8 +12,12 @@ place=$(grep -m1 -o 'place at: *[^ ]*' $demo | sed 's/place at: *//')
 cd $WT
 git apply $SRC/$L.patch.diff || { echo "PATCH DOES NOT APPLY"; exit 2; }
 go build ./... || { echo "BUILD FAILS"; exit 2; }
+for try in 1 2 3; do   # tests.TestEdgeNeighbor is flaky on the unchanged tree (random root with a tip child)
 go test -vet=off -count=1 ./... > /tmp/seed_suite.$$ 2>&1; rc=$?
-grep -E "^(FAIL|---)" /tmp/seed_suite.$$ | head; rm -f /tmp/seed_suite.$$
+grep -E "^(FAIL|--- FAIL)" /tmp/seed_suite.$$ | head -5
+[ $rc -eq 0 ] && break
+grep -q -- "--- FAIL: TestEdgeNeighbor" /tmp/seed_suite.$$ || break
+done; rm -f /tmp/seed_suite.$$
 [ $rc -ne 0 ] && { echo "SUITE FAILS WITH CHANGE"; exit 2; }
 echo "suite passes with change"
 mkdir -p $(dirname $place); cp $demo $place
